@@ -57,6 +57,9 @@ EXPLANATION += " R10: BaseFileError is no longer matched by statement: its const
 TECHNIQUE += '; scenario evaluation of the LineIterator class; per-case line consumption of dictionary-returning helpers'
 EXPLANATION += ' R6: the LineIterator class is interpreted on a model file of four lines through a script of ten reads and push-backs (counter from 0, one per read, minus one per push-back, last-in first-out before the file, StopIteration at the end, close on exit). R4: a dictionary a module helper returns carries the helper\'s minimum line consumption separately for "returned empty" and "returned filled", so that `info = helper(lit); info["key"]` keeps the progress argument of the inlined loop.'
 # --- end metadata round-3 twins
+# --- metadata added after the round-4 refactoring twins
+EXPLANATION += ' R4: a step that is handed on unchanged through the parameters of two functions is positive if it is at every outer call site.'
+# --- end metadata round-4 twins
 
 
 def _derives_from(prog, cls, base):
